@@ -6,6 +6,7 @@ bounds: exact at module level / one-line bodies, under-estimating by the indenta
   * for pinned real modules and each of the 11 size options: len(minify(S, base + o)) <= len(minify(S, base)) for base in {all off, defaults minus o}.
 """
 import random
+import warnings
 
 from ..common import main_wrapper, sha, MachineryError
 from .. import tlc, local, corpus, inputs
@@ -70,6 +71,7 @@ def size_job(job):
                 continue
             out.append({'id': '%s|%s|%s' % (job['id'], o, bname), 'what': 'size', 'option': o, 'len_on': len(on.encode('utf-8')), 'len_off': len(off.encode('utf-8')),
                         'slack': indent_slack(on) if len(on) > len(off) and o in ('rename_locals', 'rename_globals', 'hoist_literals') else 0,
+                        'adjacent': adjacent_literals(off) if len(on) > len(off) and o == 'hoist_literals' else 0,
                         'kind': '', 'L': 0, 'C': 0, 'refs': 0, 'old_mentions': 0, 'new_mentions': 0, 'additional': 0, 'decided': False})
     # decisions logged during the last default-options run
     del _log[:]
@@ -83,6 +85,24 @@ def size_job(job):
         r.update({'id': '%s|decision%d' % (job['id'], k), 'what': 'decision', 'option': '', 'len_on': 0, 'len_off': 0, 'slack': 0})
         dec.append(r)
     return out + dec
+
+
+def adjacent_literals(src):
+    """number of places where a string / bytes / number literal touches a name or keyword without a space (`'abc'for`, `in'abc'`): a name that
+    replaces the literal there needs a separating space the literal did not need"""
+    import io
+    import tokenize
+    n = 0
+    try:
+        toks = [t for t in tokenize.generate_tokens(io.StringIO(src).readline)]
+    except Exception:
+        return 0
+    for a, b in zip(toks, toks[1:]):
+        if a.end == b.start and {a.type, b.type} == {tokenize.NAME, tokenize.STRING}:
+            n += 1
+        elif a.end == b.start and a.type == tokenize.NUMBER and b.type == tokenize.NAME:
+            n += 1
+    return n
 
 
 def indent_slack(out_src):
@@ -118,6 +138,64 @@ def indent_slack(out_src):
     return slack
 
 
+# the syntactic position a repeated literal occupies: every statement / expression form whose child can be a constant and that some
+# transform rebuilds or moves (annotation removal turns AnnAssign into Assign, return None is rewritten, imports are merged, ...)
+SITES = {
+    'list': lambda ls: ['values = [%s]' % ', '.join(ls)],
+    'annassign': lambda ls: ['name_%d: object = %s' % (i, l) for i, l in enumerate(ls)],
+    'annattr': lambda ls: ['holder.attribute_%d: object = %s' % (i, l) for i, l in enumerate(ls)],
+    'assign': lambda ls: ['name_%d = %s' % (i, l) for i, l in enumerate(ls)],
+    'augassign': lambda ls: ['holder += %s' % l for l in ls],
+    'default': lambda ls: ['def inner_function(%s): return argument_0' % ', '.join('argument_%d=%s' % (i, l) for i, l in enumerate(ls))],
+    'kwonly_default': lambda ls: ['def inner_function(*, %s): return argument_0' % ', '.join('argument_%d=%s' % (i, l) for i, l in enumerate(ls))],
+    'lambda_default': lambda ls: ['inner = lambda %s: argument_0' % ', '.join('argument_%d=%s' % (i, l) for i, l in enumerate(ls))],
+    'keyword': lambda ls: ['holder(%s)' % ', '.join('key_%d=%s' % (i, l) for i, l in enumerate(ls))],
+    'callarg': lambda ls: ['holder(%s)' % ', '.join(ls)],
+    'return': lambda ls: ['def inner_%d(): return %s' % (i, l) for i, l in enumerate(ls)],
+    'yield': lambda ls: ['def inner_generator():\n' + '\n'.join('    yield %s' % l for l in ls)],
+    'compare': lambda ls: ['holder = [%s]' % ', '.join('holder == %s' % l for l in ls)],
+    'is': lambda ls: ['holder = [%s]' % ', '.join('holder is %s' % l for l in ls)],
+    'subscript': lambda ls: ['holder = [%s]' % ', '.join('holder[%s]' % l for l in ls)],
+    'dictvalue': lambda ls: ['holder = {%s}' % ', '.join('%d: %s' % (i, l) for i, l in enumerate(ls))],
+    'dictkey': lambda ls: ['holder = {%s}' % ', '.join('%s: %d' % (l, i) for i, l in enumerate(ls))],
+    'ifexp': lambda ls: ['holder = [%s]' % ', '.join('%s if holder else %s' % (l, l) for l in ls[::2])],
+    'fstring': lambda ls: ['holder = f"%s"' % ''.join('{%s}' % l for l in ls)],
+    'assert': lambda ls: ['assert holder, %s' % l for l in ls],
+    'raise': lambda ls: ['def inner_%d(): raise ValueError(%s)' % (i, l) for i, l in enumerate(ls)],
+    'withitem': lambda ls: ['with holder(%s): pass' % l for l in ls],
+    'decorator': lambda ls: ['@holder(%s)\ndef inner_%d(): pass' % (l, i) for i, l in enumerate(ls)],
+    'classkw': lambda ls: ['class Inner_%d(holder, metaclass=holder, option=%s): pass' % (i, l) for i, l in enumerate(ls)],
+    'comprehension': lambda ls: ['holder = [%s for item in holder if item != %s]' % (ls[0], ls[0])] * max(1, len(ls) // 2),
+    'slice': lambda ls: ['holder = [%s]' % ', '.join('holder[%s:%s]' % (l, l) for l in ls[::2])],
+    'matchvalue': lambda ls: ['match holder:\n' + '\n'.join('    case [%s, item_%d]: pass' % (l, i) for i, l in enumerate(ls))],
+}
+
+
+def site_programs():
+    """one literal at k sites of one syntactic kind, at module level / in a function / in a method"""
+    out = []
+    lits = ["'abcdef'", "'a much longer literal value'", "b'abcdef'", 'None', 'True', '123456']
+    for site, mk in sorted(SITES.items()):
+        for lit in lits:
+            if site in ('matchvalue',) and lit in ('None', 'True'):
+                pass        # still valid patterns (singletons)
+            for k in (3, 8):
+                body = '\n'.join(mk([lit] * k))
+                ind = lambda t, n: '\n'.join('    ' * n + x for x in t.split('\n'))   # noqa: E731
+                progs = {'module': 'holder = print\n%s\n' % body,
+                         'function': 'def function_name(holder):\n%s\n    return holder\n' % ind(body, 1),
+                         'method': 'class ClassName:\n    def method_name(self, holder):\n%s\n        return holder\n' % ind(body, 2)}
+                for place, src in sorted(progs.items()):
+                    try:
+                        with warnings.catch_warnings():
+                            warnings.simplefilter('ignore')
+                            compile(src, 's', 'exec')
+                    except SyntaxError:
+                        continue
+                    out.append(('site:%s:%s:%s:%d' % (site, place, lit, k), src.encode()))
+    return out
+
+
 def synthetic():
     """small modules in which one literal is repeated k times - at module level, in a function, in a nested block - for every literal kind
     the hoister could consider; they make the size options' cost decisions observable one at a time"""
@@ -129,6 +207,7 @@ def synthetic():
             out.append(('synthetic:module:%s:%d' % (lit, k), ('values = [%s]\nprint(values)\n' % uses).encode()))
             out.append(('synthetic:function:%s:%d' % (lit, k), ('def function_name(argument):\n    values = [%s]\n    return values, argument\nprint(function_name(1))\n' % uses).encode()))
             out.append(('synthetic:nested:%s:%d' % (lit, k), ('def function_name(argument):\n    if argument:\n        for item in argument:\n            values = [%s]\n    return argument\n' % uses).encode()))
+    out += site_programs()
     for name in ('argument_name', 'a', 'ab'):
         for k in (1, 2, 4, 8):
             body = ' + '.join([name] * k)
@@ -167,6 +246,8 @@ def run(args, rep):
             key = 'size|%s|%s|%s|%s' % (name.split('/')[-1], shas[name], r['option'], rid.split('|')[2])
             if 0 < r['len_on'] - r['len_off'] <= r.get('slack', 0):
                 key = 'D15:' + key       # the growth is within what the indentation of inserted assignments accounts for (known finding)
+            elif 0 < r['len_on'] - r['len_off'] <= r.get('slack', 0) + r.get('adjacent', 0):
+                key = 'D30:' + key       # ... plus one space per literal that touched a keyword (known finding)
             what = '%s option=%s base=%s len_on=%d len_off=%d' % (name, r['option'], rid.split('|')[2], r['len_on'], r['len_off'])
         else:
             key = 'decision|%s' % ','.join('%s=%s' % (k, r[k]) for k in ('kind', 'L', 'C', 'refs', 'old_mentions', 'new_mentions', 'additional', 'decided'))
@@ -179,7 +260,8 @@ def run(args, rep):
         rep.sample({'module': sz[0]['id'], 'len_on': sz[0]['len_on'], 'len_off': sz[0]['len_off']})
     rep.exhaustive = False
     rep.rule = ('pinned stdlib modules and the repository sources x 11 size options x 2 bases (all off; defaults minus the option): output byte lengths with the option on and off; '
-                'plus up to 400 logged should_rename decisions per module; non-trivial = (module, option, base) triples whose two outputs differ in length')
+                'plus synthetic modules: one literal of 16 kinds repeated 2..20 times, and one literal at 3 / 8 sites of each of %d syntactic kinds (annotated assignment, default, '
+                'keyword, return, subscript, f-string, pattern, ...) at module level / in a function / in a method; plus up to 400 logged should_rename decisions per module; non-trivial = (module, option, base) triples whose two outputs differ in length' % len(SITES))
     rep.extra.update({'modules': len(jobs), 'decisions_logged': len(dec), 'size_pairs': len(records) - len(dec), 'corpus_skipped': skipped,
                       'checker_cmd': 'tlc Cost.tla (MC_Cost.cfg); tlc Trace_Size.tla over ndjson observations'})
     rep.assumptions += ['"real-world modules" = the pinned corpus; the property is a corpus observation, not a universal claim',
